@@ -11,7 +11,7 @@ good_C15 (every doc string reproduced, every character of it read inside a comme
 in code at the end); the finding class is the extracted known_C15 on the doc strings of the input.
 For Python the Gallina lexer is cross-checked against CPython's tokenize on the same bytes."""
 import concurrent.futures, io, json, subprocess, tokenize
-import vf, progs, back
+import vf, progs, back, irgen
 from vf import S, Lst
 
 LANGS = [('typescript', 'ts', [], {}), ('kotlin', 'kt', ['--java-package', 'p'], {'package': 'p'}), ('swift', 'swift', [], {}),
@@ -26,6 +26,13 @@ RISKY_TOKENS = ['\n', '\n', '*/', '*/', '"""', '"""', '\r', '\r\n', '\n\n', '\n/
                 '"""\n', '\n"""', '\n#', '\\"""" ', "'''\n"]
 RUST_WS = {chr(c) for c in [9, 10, 11, 12, 13, 32, 0x85, 0xa0, 0x1680, 0x2028, 0x2029, 0x202f, 0x205f, 0x3000] + list(range(0x2000, 0x200b))}
 MODE = {1: 'code', 2: 'code/', 3: 'line-comment', 4: 'block-comment', 5: 'string', 6: 'long-string', 7: 'quote', 8: 'triple-quoted'}
+
+
+def rust_trim_end(s):
+    b = len(s)
+    while b > 0 and s[b - 1] in RUST_WS:
+        b -= 1
+    return s[:b]
 
 
 def rust_trim(s):
@@ -80,6 +87,19 @@ class DocGen:
             src = ('attr', r.choice(['', ' ']) + t + r.choice(['', ' ']))
         return src, rust_trim(t)
 
+    def raw_docs(self, risky, p):
+        """doc strings as no parser would deliver them (untrimmed): for the IR-level stream"""
+        r = self.rng
+        if r.random() > p:
+            return []
+        out = []
+        for _ in range(r.choice([1, 1, 1, 2, 3])):
+            t = self.text(risky)
+            if t and r.random() < 0.3:
+                t = r.choice([' ', '\t', '  ', '\n' if risky else ' ', '']) + t + r.choice([' ', ' \t', '\n' if risky else ' ', '\n\n' if risky else '', '\u00a0', ''])
+            out.append(t)
+        return out
+
     def docs(self, risky, p):
         r = self.rng
         if r.random() > p:
@@ -128,6 +148,30 @@ def ir_sites(ir):
     for a in ir.get('aliases', []):
         out.append(('alias', a['id']['original'], a['comments']))
     return out
+
+
+def plant_ir(dg, items, risky, p):
+    for s in items['structs']:
+        s['comments'] = dg.raw_docs(risky, p)
+        for f in s['fields']:
+            f['comments'] = dg.raw_docs(risky, p)
+    for e in items['enums']:
+        e['comments'] = dg.raw_docs(risky, p)
+        for v in e['variants']:
+            v['comments'] = dg.raw_docs(risky, p)
+            for f in v.get('fields', []):
+                f['comments'] = dg.raw_docs(risky, p)
+    for a in items['aliases']:
+        a['comments'] = dg.raw_docs(risky, p)
+    return [(pos, ds) for pos, _, ds in ir_sites(items) if ds]
+
+
+def sites_for(c, lang):
+    """the doc strings whose text the back end of `lang` carries: Swift prints comment.trim_end() (swift.rs:743), every other
+    back end the string itself (source-level doc strings arrive trimmed, so this only matters for the IR-level stream)"""
+    if lang != 'swift':
+        return c['sites']
+    return [(p, [rust_trim_end(d) for d in ds]) for p, ds in c['sites']]
 
 
 def sentinels_of(sites):
@@ -182,6 +226,9 @@ def parse_answer(a):
 def py_tokenize_spans(text):
     """character offsets covered by COMMENT tokens and by triple-quoted STRING tokens according to CPython's tokenize;
     returns (set of offsets, offset up to which the answer is valid)"""
+    # CPython reads source with universal newlines (CR LF and a lone CR end a line: `compile('x = 1 # c\\ry = 2')` defines y);
+    # the pure-Python tokenize module does not, so translate first, keeping every offset
+    text = text.replace('\r\n', ' \n').replace('\r', '\n')
     data = text.encode('utf-8')
     lines = text.split('\n')
     starts, o = [], 0
@@ -233,6 +280,13 @@ def gen_cases(chk, n):
         dg = DocGen(rng)
         sites = plant(dg, prog, risky, rng.choice([0.5, 0.8, 1.0]))
         cases.append({'source': progs.source(prog), 'sites': sites, 'risky': risky})
+    ig = irgen.Gen(rng, edge=0.05)
+    for k in range(n // 3):
+        items = ig.items(1, 4)
+        items['consts'] = []          # consts carry no docs (and Kotlin/Swift cannot print them)
+        risky = k % 2 == 1
+        sites = plant_ir(DocGen(rng), items, risky, rng.choice([0.5, 0.8, 1.0]))
+        cases.append({'items': items, 'sites': sites, 'risky': risky})
     # fixed corpus: the six witnesses of Props/C15.v as source programs, and a well-behaved program
     for name, doc in (('two-lines', '/** alpha\nbeta */'), ('star-slash', '#[doc = "alpha */ beta"]'), ('quotes', '/// alpha """ beta'),
                       ('plain', '/// alpha beta')):
@@ -243,27 +297,31 @@ def gen_cases(chk, n):
 
 def judge(chk, cases, tag=''):
     """runs real generator + model on every (case, language); fills case['res'][lang]"""
-    jobs = [(l, cfg, c['source'], []) for c in cases for l, _, _, cfg in LANGS]
-    res = back.run_src(jobs)
-    k = 0
+    src_cases = [c for c in cases if 'source' in c]
+    ir_cases = [c for c in cases if 'items' in c]
+    res = back.run_src([(l, cfg, c['source'], []) for c in src_cases for l, _, _, cfg in LANGS])
+    res_ir = back.run_ir([(l, cfg, c['items'], False) for c in ir_cases for l, _, _, cfg in LANGS])
     reqs, where = [], []
-    for c in cases:
-        c['res'] = {}
-        for l, _, _, cfg in LANGS:
-            r = res[k]
-            k += 1
-            c['res'][l] = {'impl': r['impl'], 'model': r['model'], 'ir': r['ir']}
-            for side in ('impl', 'model'):
-                if r[side][0] == 'ok':
-                    reqs.append(sx_request(l, c['sites'], r[side][1]))
-                    where.append((c, l, side))
+    for group, rs in ((src_cases, res), (ir_cases, res_ir)):
+        k = 0
+        for c in group:
+            c['res'] = {}
+            for l, _, _, cfg in LANGS:
+                r = rs[k]
+                k += 1
+                c['res'][l] = {'impl': r['impl'], 'model': r['model'], 'ir': r.get('ir') if 'source' in c else c['items']}
+                for side in ('impl', 'model'):
+                    if r[side][0] == 'ok':
+                        reqs.append(sx_request(l, sites_for(c, l), r[side][1]))
+                        where.append((c, l, side))
     for (c, l, side), a in zip(where, vf.model(reqs)):
         c['res'][l][side + '_judged'] = parse_answer(a)
 
 
 def payload_of(c, l, extra=None):
     r = c['res'][l]
-    p = {'lang': l, 'cfg': dict(next(x[3] for x in LANGS if x[0] == l)), 'source': c['source'], 'sites': c['sites']}
+    p = {'lang': l, 'cfg': dict(next(x[3] for x in LANGS if x[0] == l)), 'sites': c['sites']}
+    p.update({'source': c['source']} if 'source' in c else {'items': c['items']})
     if r['impl'][0] == 'ok':
         p['output'] = r['impl'][1]
     else:
@@ -286,15 +344,16 @@ def run(chk):
     chk.prepare(need_cli=True)
     if not chk.harness_ok:
         return
-    n = 150 if chk.tier == 'quick' else 2500
+    n = 600 if chk.tier == 'quick' else 12000
     cases = gen_cases(chk, n)
     judge(chk, cases)
     corr, front_bad = [], []
     for ci, c in enumerate(cases):
-        sents = sentinels_of(c['sites'])
         for l, ext, extra, cfg in LANGS:
             r = c['res'][l]
+            sents = sentinels_of(sites_for(c, l))
             chk.evaluations += 1
+            chk.count('stream_source' if 'source' in c else 'stream_ir')
             impl, model = r['impl'], r['model']
             if impl[0] != 'ok' or model[0] != 'ok':
                 chk.count(f'not_generated_{impl[0]}')
@@ -303,7 +362,7 @@ def run(chk):
                 continue
             # the front end delivered the doc strings the generator planted (one raw string per attribute)
             got = [(p, ds) for p, _, ds in ir_sites(r['ir']) if ds]
-            if sorted(got) != sorted((p, list(ds)) for p, ds in c['sites']):
+            if 'source' in c and sorted(got) != sorted((p, list(ds)) for p, ds in c['sites']):
                 front_bad.append(payload_of(c, l, {'ir_sites': got}))
                 continue
             ji, jm = r['impl_judged'], r['model_judged']
@@ -318,7 +377,7 @@ def run(chk):
                 if known is None:
                     chk.count('contained_' + l)
                     if sents:
-                        chk.nontrivial.add((c['source'], l))
+                        chk.nontrivial.add((c.get('source') or json.dumps(c['items'], sort_keys=True), l))
                 else:
                     # cannot happen by C15_necessary; if it does, lexer/marking and theorem disagree
                     corr.append(payload_of(c, l, {'note': 'in the finding class yet judged contained', 'unsafe': ji['unsafe']}))
@@ -356,7 +415,7 @@ def run(chk):
                 i = text.find(s, i + 1)
     # a sample through the real binary
     if chk.cli_ok:
-        sub = [(c, LANGS[k % 6]) for k, c in enumerate(cases[:(48 if chk.tier == 'quick' else 600)])]
+        sub = [(c, LANGS[k % 6]) for k, c in enumerate([c for c in cases if 'source' in c][:(96 if chk.tier == 'quick' else 1800)])]
         with concurrent.futures.ThreadPoolExecutor(max_workers=vf.NPROC) as ex:
             outs = list(ex.map(run_cli, [(c['source'], l, ext, extra) for c, (l, ext, extra, cfg) in sub]))
         reqs, idx = [], []
@@ -370,7 +429,7 @@ def run(chk):
                     if o['rc'] == 0 and r['ir'] and (r['ir'].get('structs') or r['ir'].get('enums') or r['ir'].get('aliases')):
                         corr.append(payload_of(c, l, {'cli': o}))
                 continue
-            reqs.append(sx_request(l, c['sites'], o['text']))
+            reqs.append(sx_request(l, sites_for(c, l), o['text']))
             idx.append(k)
         for k, a in zip(idx, vf.model(reqs)):
             (c, (l, ext, extra, cfg)), o = sub[k], outs[k]
@@ -402,10 +461,11 @@ def run(chk):
 def replay(chk, path):
     chk.prepare(need_cli=False)
     d = json.load(open(path))
-    if 'source' not in d:
+    if 'source' not in d and 'items' not in d:
         print(json.dumps(d, indent=1)[:3000])
         return 0
-    c = {'source': d['source'], 'sites': [(p, ds) for p, ds in d['sites']]}
+    c = {'sites': [(p, ds) for p, ds in d['sites']]}
+    c.update({'source': d['source']} if 'source' in d else {'items': d['items']})
     judge(chk, [c])
     sents = sentinels_of(c['sites'])
     rc = 0
